@@ -406,12 +406,14 @@ Section Proofs.
   Lemma step_inv st s : Inv s -> valid_step st ->
     exists s' nf, do_step c b st s = Some (s', nf) /\ Inv s'.
   Proof.
-    intros [W HK] V. destruct st as [k|el|]; simpl.
+    intros [W HK] V. destruct st as [k|k|el|]; simpl.
     - eexists _, _. split; [reflexivity|]. destruct W as (W1 & W2 & W3 & W4). simpl in V.
       unfold Inv, wf, K, app_commit, live_frames; simpl. splits; auto.
       + apply Forall_app; split; auto.
       + rewrite sumz_app; simpl. lia.
       + intros E. apply app_eq_nil in E. destruct E; congruence.
+    - eexists _, _. split; [reflexivity|]. destruct W as (W1 & W2 & W3 & W4).
+      unfold Inv, wf, K, app_spill, live_frames; simpl. splits; auto. lia.
     - destruct (sync_bound el s W (K_K0 _ HK)) as (s' & nf & att & E & W' & P & Bd).
       rewrite E. eexists _, _. split; [reflexivity|]. split; auto. intros _; exact Bd.
     - eexists _, _. split; [reflexivity|]. destruct W as (W1 & W2 & W3 & W4).
@@ -749,3 +751,12 @@ Example truncate_not_starved_example :
   let r := sync_once c 1 false s in
   o_limited r = true /\ o_toend r = false /\ o_attempts r = [(Passive, ORestarted)] /\ live_frames (o_st r) = 1.
 Proof. vm_compute. auto. Qed.
+
+(** a transaction that spilled 40 uncommitted frames behind a committed one and
+    was rolled back: the next Sync copies the committed transaction (1 file, not
+    at the end of the file), the idle Syncs after it create nothing *)
+Example spill_rollback_idle_example :
+  run c_dflt 1 [Sync (fun _ => false); Commit 2; Spill 40; Sync (fun _ => false);
+                Sync (fun _ => false); Sync (fun _ => false); Sync (fun _ => false)] (init 2)
+  = Some (mkAst 4 [] 44 (mkFlags false true) (walsz c_dflt 4) false false, 2).
+Proof. vm_compute. reflexivity. Qed.
